@@ -93,6 +93,10 @@ type rbScope struct {
 }
 
 type rbT struct {
+	probe        string   // when set: the visible local names are recorded at the read of this identifier
+	probeVisible []string
+	probeFound   bool
+	probeCtx     []string
 	colonRecv []string // receiver names of colon-method definitions (function t:m ...)
 	ctx     []string
 	ctxKind int
@@ -128,6 +132,15 @@ func (r *rbT) resolve(name string) int {
 }
 
 func (r *rbT) use(name string, loc lexer.Location, kind int) {
+	if r.probe != "" && name == r.probe && kind == rbOccRead && r.file == 0 {
+		r.probeFound = true
+		r.probeCtx = r.ctx
+		for i := len(r.stack) - 1; i >= 0; i-- {
+			for _, di := range r.stack[i].decls {
+				r.probeVisible = append(r.probeVisible, r.decls[di].name)
+			}
+		}
+	}
 	d := r.resolve(name)
 	if d >= 0 {
 		if kind == rbOccRead {
@@ -437,4 +450,41 @@ func (r *rbT) isColonReceiver(name string) bool {
 		}
 	}
 	return false
+}
+
+// ---------------------------------------------------------------- exported facade (harnesses in package langserver)
+
+// VpProject analyses an in-memory workspace.
+func VpProject(names []string, srcs [][]byte) *AllProject {
+	p, _ := vpProject(names, srcs)
+	return p
+}
+
+// VpScopeAt runs the reference binder and reports, for the (single) read of the probe identifier in
+// file 0, the names of the local declarations visible there, and the names of all local declarations
+// and all defined globals of the workspace.
+func VpScopeAt(p *AllProject, names []string, probe string) (visible []string, allLocals []string, globals []string, ownStmt []string, found bool) {
+	fs := make([]*results.FileStruct, len(names))
+	for i, n := range names {
+		fs[i] = p.getVailidCacheFileStruct(n)
+	}
+	r := &rbT{probe: probe}
+	for i, f := range fs {
+		r.file = i
+		r.stack = nil
+		r.depth = 0
+		r.push()
+		r.stats(f.FileResult.Block)
+		r.pop()
+	}
+	for i := range r.decls {
+		allLocals = append(allLocals, r.decls[i].name)
+	}
+	for i := range r.occs {
+		o := &r.occs[i]
+		if o.kind == rbOccWrite && o.decl < 0 {
+			globals = append(globals, o.name)
+		}
+	}
+	return r.probeVisible, allLocals, globals, r.probeCtx, r.probeFound
 }
